@@ -10,12 +10,45 @@ package grpcutil
 //@   pure
 //@   ensures result == escByte(char)
 
+// Percent-encoding, exactly: byte k of msg is written at offset pctLen(msg, k) of the result,
+// as itself if it needs no escape and as '%' followed by its two upper-case hex digits
+// otherwise; the result has no other bytes. (Hence decoding left to right recovers msg.)
+//@ spec pctLen(msg string, n int) int = n <= 0 ? 0 : pctLen(msg, n - 1) + (escByte(msg[n-1]) ? 3 : 1)
+//@ spec hexDigit(x int) int = x < 10 ? 48 + x : 55 + x
+//@ spec pctAt(out string, msg string, k int) bool = escByte(msg[k]) ?
+//@      (out[pctLen(msg, k)] == 37 && out[pctLen(msg, k) + 1] == hexDigit(msg[k] / 16) && out[pctLen(msg, k) + 2] == hexDigit(msg[k] % 16)) :
+//@      out[pctLen(msg, k)] == msg[k]
+
+//@ lemma pctLenPlain(msg string, n int)
+//@   requires forall k int :: 0 <= k && k < n ==> !escByte(msg[k])
+//@   ensures pctLen(msg, n) == (n <= 0 ? 0 : n)
+//@   induct pctLenPlain(msg, n - 1) when n > 0
+//@   decreases n
+//@ lemma pctLenBounds(msg string, n int)
+//@   requires true
+//@   ensures pctLen(msg, n) >= 0 && (n >= 0 ==> pctLen(msg, n) >= n)
+//@   induct pctLenBounds(msg, n - 1) when n > 0
+//@   decreases n
+
+//@ lemma hexTable(d int)
+//@   requires 0 <= d && d < 16
+//@   ensures "0123456789ABCDEF"[d] == hexDigit(d)
+//@ lemma pctLenStep(msg string, k int, n int)
+//@   requires 0 <= k && k < n
+//@   ensures pctLen(msg, k) + (escByte(msg[k]) ? 3 : 1) <= pctLen(msg, n)
+//@   induct pctLenStep(msg, k, n - 1) when n > k + 1
+//@   decreases n
+
 //@ func PercentEncodeMessage
-//@   ensures forall i int :: 0 <= i && i < len(result) ==> result[i] >= 32 && result[i] <= 126
+//@   ensures @printable forall i int :: 0 <= i && i < len(result) ==> result[i] >= 32 && result[i] <= 126
+//@   ensures @length len(result) == pctLen(msg, len(msg))
+//@   ensures @exact forall k int :: 0 <= k && k < len(msg) ==> pctAt(result, msg, k)
 //@   loop 0: invariant 0 <= i && i < len(msg) && 0 <= hexCount && hexCount <= i
 //@           invariant hexCount == 0 ==> forall k int :: 0 <= k && k < i ==> !escByte(msg[k])
 //@   loop 1: invariant 0 <= i && i < len(msg)
 //@           invariant forall k int :: 0 <= k && k < len(sbContent[out]) ==> sbContent[out][k] >= 32 && sbContent[out][k] <= 126
+//@           invariant len(sbContent[out]) == pctLen(msg, i)
+//@           invariant forall k int :: 0 <= k && k < i ==> pctAt(sbContent[out], msg, k)
 
 // ---- metadata <-> header lists ----
 
@@ -82,3 +115,40 @@ package grpcutil
 //@           invariant forall k string, i int :: has(src, k) && k != key && 0 <= i && i < len(src[k]) ==>
 //@               src[k][i] == ((rangeidx(k) < rangepos && hasSuffix(k, "-bin")) ? b64enc(atpre(src[k][i])) : atpre(src[k][i]))
 //@           invariant forall i int :: 0 <= i && i < len(value) ==> value[i] == (i <= rangeindex ? b64enc(atpre(value[i])) : atpre(value[i]))
+
+// AppendToOutgoingContext hands grpc's metadata.AppendToOutgoingContext exactly the
+// key/value pairs (name, value) of every value of every header, in order.
+//@ func AppendToOutgoingContext
+//@   requires len(src) <= 4611686018427387903 //# len(src)*2 must not overflow (always true of a []*T on 64-bit)
+//@   modifies aocLen, aocArg
+//@   ensures @count aocLen[0] == 2 * flatLen(src, len(src))
+//@   ensures @pairs forall j int, i int :: 0 <= j && j < len(src) && 0 <= i && i < len(src[j].Value) ==>
+//@        aocArg[2 * (flatLen(src, j) + i)] == src[j].Name && aocArg[2 * (flatLen(src, j) + i) + 1] == src[j].Value[i]
+//@   loop 0: invariant len(keysVals) == 2 * flatLen(src, rangeindex + 1) && (slicebase(keysVals) == 0 || fresh(keysVals))
+//@           invariant forall j int, i int :: 0 <= j && j <= rangeindex && 0 <= i && i < len(src[j].Value) ==>
+//@               keysVals[2 * (flatLen(src, j) + i)] == src[j].Name && keysVals[2 * (flatLen(src, j) + i) + 1] == src[j].Value[i]
+//@   loop 1: invariant len(keysVals) == 2 * (flatLen(src, rangeindex0 + 1) + rangeindex + 1) && (slicebase(keysVals) == 0 || fresh(keysVals))
+//@           invariant hdr == src[rangeindex0 + 1] && 0 <= rangeindex0 + 1 && rangeindex0 + 1 < len(src)
+//@           invariant forall j int, i int :: 0 <= j && j <= rangeindex0 && 0 <= i && i < len(src[j].Value) ==>
+//@               keysVals[2 * (flatLen(src, j) + i)] == src[j].Name && keysVals[2 * (flatLen(src, j) + i) + 1] == src[j].Value[i]
+//@           invariant forall i int :: 0 <= i && i <= rangeindex ==>
+//@               keysVals[2 * (flatLen(src, rangeindex0 + 1) + i)] == hdr.Name && keysVals[2 * (flatLen(src, rangeindex0 + 1) + i) + 1] == hdr.Value[i]
+
+// ---- test-case error <-> gRPC status ----
+// The gRPC side is described by the algebra assumed for grpc-go's status package in
+// /verif/contracts/extern/deps.vc (fromErr, stCode, stMsg, stDet*; stArg records the
+// status message handed to status.ErrorProto).
+
+//@ func ConvertProtoToGrpcError
+//@   modifies stArg
+//@   ensures @nil err == nil ==> result == nil
+//@   ensures @status err != nil ==> stArg[0] != nil && fresh(stArg[0]) && stArg[0].Code == err.Code &&
+//@        stArg[0].Message == (err.Message == nil ? "" : *err.Message) && stArg[0].Details == err.Details
+
+//@ func ConvertGrpcToProtoError
+//@   modifies nothing
+//@   ensures @nil (err == nil) == (result == nil)
+//@   ensures @code err != nil && stCode(fromErr(err)) <= 2147483647 ==> result.Code == stCode(fromErr(err))
+//@   ensures @message err != nil ==> result.Message != nil && *result.Message == stMsg(fromErr(err))
+//@   ensures @details err != nil ==> len(result.Details) == stDetN(fromErr(err)) && (forall i int :: 0 <= i && i < len(result.Details) ==>
+//@        result.Details[i] != nil && result.Details[i].TypeUrl == stDetType(fromErr(err), i) && bytes(result.Details[i].Value) == stDetBytes(fromErr(err), i))
